@@ -11,6 +11,7 @@ Functions
   build_decl(decl) / build_schema_class(schema)   python classes through the real TlvModelMeta
   introspect(cls)                                  schema descriptor of a shipped model class
   to_python(schema, cls, mv) / to_abstract(schema, inst)     model value <-> instance
+  mut / mutate_abstract / mutate_instance          in-place changes of a live instance (TlvModelLife.tla)
   project(buf, schema)        strict projection wire -> abstract tree (raises strict_tlv.TlvError)
   project_raw(buf, schema)    lenient projection with `fits` flags (never raises)
   concrete(buf, schema) / apply_edit / strict_tlv.write_tlv   edits at the byte level
@@ -310,6 +311,85 @@ def to_abstract(schema, inst):
         f = by_name.get(d['name'])
         out.append({'k': 'missing-field'} if f is None else field_to_abstract(d, f.get_value(inst), f))
     return out
+
+
+# ------------------------------------------------------------------ life of one instance (TlvModelLife.tla)
+
+
+def mut(path, i, op, j=0, key=None, fv=None):
+    """a change of TlvModelLife: field i (1-based) of the model reached by path = [[field, item], ...]"""
+    return {'path': [list(p) for p in path], 'i': i, 'op': op, 'j': j, 'key': key or NONE, 'fv': fv or NONE}
+
+
+def _sub_schema(d):
+    return d['sub'] if d['kind'] == 'model' else d['elem'][0]['sub'] if d['kind'] == 'repeated' else d['elem'][1]['sub']
+
+
+def mutate_abstract(schema, mv, m):
+    """Mirror of TlvModelLife.Mutate on the JSON forms. Used by the GENERATOR only (it has to know the current
+    value to propose the next change); the value the implementation is judged against is computed by TLC."""
+    mv = json.loads(json.dumps(mv))
+    s, cur = schema, mv
+    for i, j in m['path']:
+        d, fv = s[i - 1], cur[i - 1]
+        cur = fv['v'] if d['kind'] == 'model' else fv['items'][j - 1]['v'] if d['kind'] == 'repeated' else fv['items'][j - 1]['val']['v']
+        s = _sub_schema(d)
+    i, op, new = m['i'] - 1, m['op'], json.loads(json.dumps(m['fv']))
+    fv = cur[i]
+    if op == 'set':
+        cur[i] = new
+    elif op == 'append':
+        fv['items'].append(new)
+    elif op == 'setitem':
+        fv['items'][m['j'] - 1] = new
+    elif op == 'pop':
+        fv['items'].pop()
+    elif op == 'clear':
+        fv['items'] = []
+    elif op == 'put':
+        for it in fv['items']:
+            if it['key'] == m['key']:
+                it['val'] = new
+                break
+        else:
+            fv['items'].append({'key': m['key'], 'val': new})
+    elif op == 'del':
+        del fv['items'][m['j'] - 1]
+    else:
+        raise ValueError(op)
+    return mv
+
+
+def mutate_instance(schema, inst, m):
+    """The same change done to the live python-ndn object the way application code does it: attribute
+    assignment for "set", list / dict methods on the object the attribute holds for the in-place operations."""
+    s, obj = schema, inst
+    for i, j in m['path']:
+        d = s[i - 1]
+        val = {f.name: f for f in model_fields(type(obj))}[d['name']].get_value(obj)
+        obj = val if d['kind'] == 'model' else val[j - 1] if d['kind'] == 'repeated' else list(val.values())[j - 1]
+        s = _sub_schema(d)
+    d = s[m['i'] - 1]
+    f = {f.name: f for f in model_fields(type(obj))}[d['name']]
+    op = m['op']
+    if op == 'set':
+        setattr(obj, f.name, field_to_python(d, m['fv'], f))
+        return
+    box = f.get_value(obj)
+    if op == 'append':
+        box.append(field_to_python(d['elem'][0], m['fv'], f.element_type))
+    elif op == 'setitem':
+        box[m['j'] - 1] = field_to_python(d['elem'][0], m['fv'], f.element_type)
+    elif op == 'pop':
+        box.pop()
+    elif op == 'clear':
+        box.clear()
+    elif op == 'put':
+        box[field_to_python(d['elem'][0], m['key'], f.key_type)] = field_to_python(d['elem'][1], m['fv'], f.value_type)
+    elif op == 'del':
+        del box[list(box)[m['j'] - 1]]
+    else:
+        raise ValueError(op)
 
 
 # ------------------------------------------------------------------ projections wire -> abstract tree
